@@ -200,3 +200,33 @@ def tmp_folder():
 def live_threads():
     return [t for t in threading.enumerate() if t is not threading.main_thread() and t.is_alive()
             and not t.daemon]
+
+
+def demean_filter(x):
+    """A coordinate filter that returns a NEW array (module level: picklable)."""
+    return x - np.mean(x)
+
+
+def two_moments(x):
+    return np.array([np.mean(x), np.std(x)])
+
+
+class NameLog:
+    """Picklable record of (class name, rows) of every sampler.sample call; install with watch()."""
+
+    def __init__(self):
+        self.rows = []
+
+    def watch(self, sampler):
+        sampler.sample = _NameLogged(self, sampler.sample, type(sampler).__name__)
+        return sampler
+
+
+class _NameLogged:
+    def __init__(self, log, orig, name):
+        self.log, self.orig, self.name = log, orig, name
+
+    def __call__(self, space, pts, losses):
+        out = self.orig(space, pts, losses)
+        self.log.rows.append((self.name, len(out)))
+        return out
